@@ -129,6 +129,8 @@ def signature(kind, label, widths, vals, exp, got, outlen, raised):
     if raised:
         if base == 'carrysave_adder':
             return 'carrysave:width-1-raises' if max(widths) == 1 else 'carrysave:raises'
+        if base == 'generalized_fma' and len(widths) <= 2:
+            return 'fma:single-term-raises'
         if base == 'fast_group_adder':
             if len(widths) == 1:
                 return 'fast_group_adder:single-operand-raises'
@@ -653,6 +655,8 @@ def compare_seq(ctx, col, job, res, model):
     bound = (wa + 1) if kind == 'simple' else (-(-wa // sh) + 1)
     for mi, (t0, a, b) in enumerate(marks):
         t_end = marks[mi + 1][0] if mi + 1 < len(marks) else len(stim) - 1
+        if trivial and mi + 1 < len(marks):
+            t_end -= 1     # combinational path: the next start cycle already shows the next product
         ctx.case((kind, sh, wa, wb, a, b), nontrivial=bool(a or b),
                  sample={'generator': label, 'widths': [wa, wb], 'A': a, 'B': b,
                          'trace(result,done)': [list(x) for x in trace[t0:t_end + 1]]}
